@@ -93,15 +93,6 @@ def run(ctx):
     for i, (cfg, name, consts) in enumerate(runs):
         mc = ctx.tlc("AgentQueueMC", cfg, timeout=3000 if th else 900, name=name, constants=consts, keep_beh=False, heap=HEAP)
         ctx.require_model_ok(mc, "AgentQueue invariants (%s)" % name)
-    if th and not selftest:
-        cov = ctx.tlc("AgentQueueMC", "AgentQueue_mc2.cfg", timeout=1800, coverage=True, workers=4, heap=HEAP, keep_beh=False,
-                      name="action coverage (two shards, ring 8)", record=False)
-        ctx.require_model_ok(cov, "AgentQueue invariants (coverage run)")
-        dead = [a for a in cov.zero_cov if a in ("Tick", "Flush", "FlushAll", "Event", "Consume", "Stop", "FlushAllData")]
-        if dead:
-            raise Infra("actions never taken in the coverage run: %s" % dead)
-        ctx.ev.set("action_coverage", {k: v for k, v in cov.coverage.items()
-                                       if k in ("Tick", "Flush", "FlushAll", "Event", "Consume", "Stop", "FlushAllData")})
     ctx.ev.set("exhaustive", True)
     ctx.ev.set("invariants", INV)
     # 2. vacuity: wrong designs must violate the property
